@@ -111,9 +111,14 @@ def make_metadata(rows, cols, *, bands=None, disp=(-1, 1)) -> xr.Dataset:
     return ds
 
 
-def step_names(kinds, first_suffix=False, suffix_at=()):
-    """Unique dictionary keys for a sequence of kinds: the 2nd, 3rd... occurrence of a kind gets '.1', '.2'...
-    (with first_suffix the first occurrence gets '.0' as well). Returns [(name, kind, sfx)], sfx = -1 for none."""
+SUFFIX_STYLES = ["{n}", "v{n}.1", "a.b.{n}", "x{n}"]
+
+
+def step_names(kinds, first_suffix=False, suffix_at=(), style=0):
+    """Unique dictionary keys for a sequence of kinds: the 2nd, 3rd... occurrence of a kind gets a '.xxx' suffix
+    (with first_suffix / suffix_at the first occurrence gets one as well). The suffix text rotates through
+    SUFFIX_STYLES (some contain dots themselves: the kind is the text before the FIRST '.').
+    Returns [(name, kind, sfx)], sfx = -1 for none."""
     seen = {}
     out = []
     for k in kinds:
@@ -122,14 +127,15 @@ def step_names(kinds, first_suffix=False, suffix_at=()):
         if n == 0 and not first_suffix and len(out) not in suffix_at:
             out.append((k, k, -1))
         else:
-            out.append((f"{k}.{n}", k, n))
+            sfx = SUFFIX_STYLES[(style + n + len(out)) % len(SUFFIX_STYLES)].format(n=n)
+            out.append((f"{k}.{sfx}", k, n))
     return out
 
 
-def pipeline_cfg(kinds, *, first_suffix=False, bad=None, overrides=None, suffix_at=()):
+def pipeline_cfg(kinds, *, first_suffix=False, bad=None, overrides=None, suffix_at=(), style=0):
     """{"pipeline": {...}} for a sequence of kinds with valid default parameters; `bad` = index (0-based) of a
     step whose method name is unknown; overrides: {index: dict} merged into the step's configuration."""
-    names = step_names(kinds, first_suffix, suffix_at)
+    names = step_names(kinds, first_suffix, suffix_at, style)
     pipe = {}
     for i, (name, kind, _) in enumerate(names):
         c = copy.deepcopy(DEFAULT_STEP_CFG[kind])
